@@ -368,3 +368,94 @@ claim("C19",
       "Coq proof (shared with C04: the plan is the skeleton of lz_read) + recording-stream oracle + in-Coq plan "
       "correspondence",
       "DESIGN.md section 7, C19; sections 4, 8")
+claim("C07",
+      "Theorems (Props/C07.v, closed under the global context). On the TRANSLATED integer functions of nptdms/writer.py "
+      "(Gen/PyFuncsWriter.v, regenerated from the source on every run by an ast translator, fail-closed, self-tested "
+      "against the Python functions on a boundary grid inside the build): int_prop_type_fits -- for every "
+      "-2^63 <= v < 2^64 to_int_property_value returns v with Int32 iff -2^31 <= v < 2^31, else Int64 iff v < 2^63, "
+      "else Uint64, and v is in the range of that type; int_prop_roundtrip -- the property bytes decode back to v; "
+      "int_prop_out_of_range_rejected; infer_dtype_fits -- whenever NumPy accepts a list of Python ints at the dtype "
+      "the _infer_dtype chain picks from (max, min), every element is written as bytes of that dtype that decode back "
+      "to the element; infer_dtype_accepts -- NumPy accepts exactly the lists avoiding the chain's holes (a maximum "
+      "needing the unsigned type of a width with a negative minimum fitting the signed one; any negative minimum at "
+      "64 bits), elsewhere the writer does not accept the call. On Model/Writer.v (write_segment: automatic root / "
+      "sorted group insertion, stable sort by _path_ordering_key, duplicate-path ValueError; TdmsSegment metadata, raw "
+      "data index, lead-in, data; append sessions): write_read_partial -- for every well-formed file (any number of "
+      "sessions and calls) the written bytes strict-parse (Model/StrictParse.v) to exactly the segment syntax the "
+      "calls describe; written_objects -- per call that syntax is the objects passed in plus the inserted root / "
+      "groups, root first, then groups, then channels in call order, each with its path, properties (name, TDMS "
+      "type, value bytes), data type and values. Tie: byte-exact correspondence of the model with nptdms.TdmsWriter "
+      "(data and index bytes; refused calls must be refused by the model) and the direct oracle -- TdmsFile.read of "
+      "the written bytes returns per channel the concatenation of what was written (dtype, bit-identical values), per "
+      "object the last value of every property with its TDMS type (seen by an independent parser of the bytes), "
+      "names and order preserved (quick 400 call sequences, thorough 12 000).",
+      "PARTIAL: the full write_read theorem (rd_all of the written bytes = content_of_calls) needs the composition "
+      "with the reader model (C01), stated in Props/C07.v as a comment; proved is the writer half against the "
+      "independent strict parser. NumPy's array -> bytes and the TimeStamp second-fraction arithmetic are supplied to "
+      "the model by the harness (fractions are only checked to be within one microsecond; datetimes generated are "
+      "whole milliseconds; every microsecond is C12's). Strings in Python lists must not end in NUL (NumPy drops "
+      "trailing NULs before the writer sees them). Trusted: Coq kernel + vm_compute, the translator "
+      "gen_pyfuncs_writer.py, the hand-written model validated by the correspondence, the harness's expected-value "
+      "computation. Model = code with fixes D6, D7 (and D2 in tdms.py). Findings on the snapshot in scope of C07: "
+      "non-native byte order arrays are written byte-swapped (key d11-nonnative-byteorder, dev/patches/D11.patch) and "
+      "a list mixing int and float whose first element is an int is truncated to integers (key "
+      "d12-mixed-int-float-list, dev/patches/D12.patch); both reappear with a replay if unfixed.",
+      "Coq proof (lia case analysis on the translated functions; serialiser/parser inversion by induction with "
+      "Proofs/TokensRoundtrip.v; sort = three-way partition) + translator + in-Coq byte-exact correspondence + "
+      "read-back oracle",
+      "DESIGN.md section 7, C07; sections 3a, 4, 8, 9 (D5, D6)")
+claim("C08",
+      "Theorems (Props/C08.v, closed under the global context): writer_structurally_valid -- for every well-formed "
+      "file (any sessions / calls accepted by Model/Writer.v, index file on) the data bytes are accepted by the "
+      "independent strict parser Model/StrictParse.v (tag, version, ToC; raw_data_offset <= next_segment_offset inside "
+      "the file; metadata parses to exactly raw_data_offset bytes and is the canonical serialisation of what was "
+      "parsed, so every length field equals the bytes that follow; nothing left over in raw data) and, clause by "
+      "clause (Proofs/StrictClauses.v): lead-in offsets equal the byte lengths written, every raw data index has "
+      "dimension 1, count = number of values, length field 20 -- 28 with total = 4n + sum of lengths for strings, raw "
+      "data length equals what declared types and counts imply, no duplicate paths, the first segment declares the "
+      "root, every channel's group path is declared in an earlier segment or earlier in the same segment, and the "
+      "index bytes equal strip_raw_and_retag of the data bytes (positional: raw data removed, TDSm -> TDSh). "
+      "writer_structurally_valid_refuted: the unchanged code (string index length 20) fails the same statement on a "
+      "one-string-channel witness (D6). Supporting: Proofs/TokensRoundtrip.v (parser inverts serialiser for both byte "
+      "orders under Model/TokensWf.v), Proofs/StrictParseProofs.v (strict_parse (ser segs) = Some segs). Tie / search: "
+      "the Coq strict_parse and strip_raw_and_retag are run on the REAL writer's bytes, an independently written "
+      "Python strict parser is the direct oracle, and data and index bytes are compared byte for byte with the "
+      "model (quick 350 call sequences: BytesIO and paths, 1-3 sessions in append mode, versions 4712/4713, index off / "
+      "on; thorough 8 000).",
+      "Trusted: Coq kernel + vm_compute; the hand-written writer model (validated byte-exactly by the "
+      "correspondence); the strict parser is a specification written from the TDMS layout (its Python twin in "
+      "harness/writer_cases.py must agree with it on every case). wf_file (hypothesis): lengths and counts fit their "
+      "fields, value sizes match types, string data of one channel per segment < 4 GiB. Defect D6 found on the "
+      "snapshot (dev/patches/D6.patch: string channels declare an index length of 20 although 28 bytes follow); "
+      "violation key d6-string-index-length reappears with a replay if the fix is reverted.",
+      "Coq proof (induction over calls with the invariant 'groups_written are declared'; list/length arithmetic with "
+      "lia) + Coq strict parser on real output + in-Coq byte-exact correspondence + Python strict parser oracle",
+      "DESIGN.md section 7, C08; sections 4, 8, 9 (D6)")
+claim("C10",
+      "Theorem (Props/C10.v, closed under the global context): defrag_preserves_partial -- for every content (root "
+      "properties, groups in order, channels in order with optional data type, raw value bytes, properties) whose "
+      "calls are well-formed, the bytes Model/Defrag.v (the call list TdmsWriter.defragment issues, over "
+      "Model/Writer.v) produces strict-parse to one segment per source object in the source's order -- root, each "
+      "group followed by its channels -- each with exactly the source's properties (raw bytes: timestamps at full "
+      "precision), the source's values byte for byte (hence the same length) and the source's data type whenever the "
+      "channel holds at least one value (an empty channel keeps a NumPy type, otherwise becomes an object without "
+      "raw data); nothing is inserted; the index file is the positional strip. Tie / search: TdmsWriter.defragment "
+      "is run on generated non-DAQmx sources (70% from an independent encoder: 1-6 segments, big-endian, interleaved, "
+      "multi-chunk, metadata-less, matches-previous; untyped, property-only, empty string/timestamp/numeric channels; "
+      "strings, raw timestamps, complex; Linear/Polynomial scaling properties; 30% written by TdmsWriter), source and "
+      "destination as stream or path, index on/off; direct oracle: TdmsFile.read(src, raw_timestamps=True) vs the "
+      "same on the destination -- groups/channels order, properties, lengths, bit-identical raw values "
+      "(read_data(scaled=False)), data type when len >= 1, scaled data (nan-safe); correspondence: the destination "
+      "(and index) bytes equal the model's bytes for the content read from the source, evaluated inside Coq (quick "
+      "300 files, thorough 6 000).",
+      "PARTIAL: the full statement composes the reader model on both sides (rd_all_raw src = c -> rd_all_raw dest "
+      "agrees with c) and needs 'the writer accepts every content the reader produces'; proved is the writer half "
+      "against the strict parser with wf_file as hypothesis; the reader's view of the source is taken as the content "
+      "(C01-C03). Property TDMS types are not compared (the reader API does not expose them; defragment re-types ints "
+      "by magnitude, floats as double). Model = code with fixes D2 (tdms.py: read_data() of an untyped channel after "
+      "an eager read), D7 (dev/patches/D7.patch: empty data whose type cannot be determined is written as an object "
+      "without raw data; was TypeError None * int). Keys d7-defragment-raises-TypeError / "
+      "d2-defragment-raises-RuntimeError reappear with a replay if a fix is reverted.",
+      "Coq proof (one segment per object: the writer inserts nothing when root and group are written first) on top "
+      "of the C07/C08 theorems + in-Coq byte-exact correspondence + reader-vs-reader oracle",
+      "DESIGN.md section 7, C10; section 9 (D2, D7)")
